@@ -1134,6 +1134,9 @@ func init() {
 
 		// round 5: forwarded argument lists of the delegating entry points, NewRedisLock's fields as functions
 		c19Forwarding(s, e)
+		// round 5c: every non-pure call of the file, per function and branch
+		c19EmitCallTable(s, e, f)
+		c19EmitBreakerGate(s, e)
 
 		for _, l := range []struct{ file, lean string }{{"core/stores/redis/lockscript.lua", "lockLua"}, {"core/stores/redis/delscript.lua", "delLua"}} {
 			raw, err := os.ReadFile(filepath.Join(*repo, l.file))
@@ -1416,4 +1419,159 @@ func c19Forwarding(s *source, e *emitter) {
 		}
 		e.printf("/-- the fields NewRedisLock sets, as functions of its parameters (`randn n` = `stringx.Randn(n)`, the constant evaluated) -/\n%s := [%s]\n\n", head, strings.Join(items, ", "))
 	}
+}
+
+// C19 round 5c: the table of EVERY non-pure call of redislock.go, per function and per branch (the chain of
+// if-conditions it sits under; `true` = the else side).  kind 1 = a method of the store client (`rl.store.<name>`),
+// kind 2 = a method of the same receiver (`rl.<m>`, name = `RedisLock.<m>`: a helper that could hide a store call),
+// kind 0 = anything else that is not in c19PureCalls.  Every function of the file is listed, so a new helper shows up.
+type c19Row struct {
+	fn   string
+	cond [][2]string // {"true"|"false", condition}
+	kind int
+	name string
+	args []string
+}
+
+func c19CallRows(s *source, rel string) []c19Row {
+	var rows []c19Row
+	f := s.file(rel)
+	if f == nil {
+		return nil
+	}
+	norm := func(e ast.Node) string { return strings.Join(strings.Fields(s.src(e)), " ") }
+	for _, d := range f.Decls {
+		fd, ok := d.(*ast.FuncDecl)
+		if !ok || fd.Body == nil {
+			continue
+		}
+		fn := fd.Name.Name
+		if fd.Recv != nil && len(fd.Recv.List) == 1 {
+			t := fd.Recv.List[0].Type
+			if st, ok := t.(*ast.StarExpr); ok {
+				t = st.X
+			}
+			fn = s.src(t) + "." + fn
+		}
+		var calls func(n ast.Node, path [][2]string)
+		var stmts func(list []ast.Stmt, path [][2]string)
+		calls = func(n ast.Node, path [][2]string) {
+			if n == nil {
+				return
+			}
+			ast.Inspect(n, func(x ast.Node) bool {
+				c, ok := x.(*ast.CallExpr)
+				if !ok {
+					return true
+				}
+				name := s.src(c.Fun)
+				if c19PureCalls[name] {
+					return true
+				}
+				r := c19Row{fn: fn, cond: append([][2]string{}, path...), name: name}
+				switch {
+				case strings.HasPrefix(name, "rl.store."):
+					r.kind, r.name = 1, strings.TrimPrefix(name, "rl.store.")
+				case strings.HasPrefix(name, "rl."):
+					r.kind, r.name = 2, "RedisLock."+strings.TrimPrefix(name, "rl.")
+				}
+				for i, a := range c.Args {
+					if r.kind == 1 && i >= 3 {
+						break
+					}
+					r.args = append(r.args, norm(a))
+				}
+				rows = append(rows, r)
+				return true
+			})
+		}
+		stmts = func(list []ast.Stmt, path [][2]string) {
+			for _, st := range list {
+				switch x := st.(type) {
+				case *ast.BlockStmt:
+					stmts(x.List, path)
+				case *ast.IfStmt:
+					if x.Init != nil {
+						calls(x.Init, path)
+					}
+					calls(x.Cond, path)
+					c := norm(x.Cond)
+					stmts(x.Body.List, append(append([][2]string{}, path...), [2]string{"false", c}))
+					if x.Else != nil {
+						stmts([]ast.Stmt{x.Else}, append(append([][2]string{}, path...), [2]string{"true", c}))
+					}
+				case *ast.ForStmt, *ast.RangeStmt, *ast.SwitchStmt, *ast.TypeSwitchStmt, *ast.SelectStmt, *ast.DeferStmt, *ast.GoStmt:
+					calls(st, append(append([][2]string{}, path...), [2]string{"false", fmt.Sprintf("<%T>", st)}))
+				default:
+					calls(st, path)
+				}
+			}
+		}
+		stmts(fd.Body.List, nil)
+	}
+	return rows
+}
+
+func c19EmitCallTable(s *source, e *emitter, rel string) {
+	rows := c19CallRows(s, rel)
+	e.printf("/-- every call of %s outside the pure list, per function and branch: (function, conditions (else-side?, condition), kind 0 other / 1 `rl.store.<name>` / 2 `rl.<m>` as `RedisLock.<m>`, name, arguments (first three for kind 1)) -/\ndef callTable : List (String × List (Bool × String) × Nat × String × List String) := [", rel)
+	for i, r := range rows {
+		if i > 0 {
+			e.printf(",")
+		}
+		var cs, as []string
+		for _, c := range r.cond {
+			cs = append(cs, fmt.Sprintf("(%s, %s)", c[0], leanString(c[1])))
+		}
+		for _, a := range r.args {
+			as = append(as, leanString(a))
+		}
+		e.printf("\n  (%s, [%s], %d, %s, [%s])", leanString(r.fn), strings.Join(cs, ", "), r.kind, leanString(r.name), strings.Join(as, ", "))
+	}
+	e.printf("]\n\n")
+}
+
+// C19 round 5c: go-zero's breaker hook in front of every Redis command: the select of
+// circuitBreaker.DoWithAcceptableCtx as (case, statements) pairs and the statements of breakerHook.ProcessHook's closure.
+func c19EmitBreakerGate(s *source, e *emitter) {
+	pairs := [][2]string{}
+	if fd := s.findFunc("core/breaker/breaker.go", "circuitBreaker.DoWithAcceptableCtx"); fd == nil || len(fd.Body.List) != 1 {
+		e.errors = append(e.errors, "circuitBreaker.DoWithAcceptableCtx: not found or not a single statement")
+	} else if sel, ok := fd.Body.List[0].(*ast.SelectStmt); !ok {
+		e.errors = append(e.errors, "circuitBreaker.DoWithAcceptableCtx: body is not one select")
+	} else {
+		for _, cl := range sel.Body.List {
+			cc := cl.(*ast.CommClause)
+			comm := "default"
+			if cc.Comm != nil {
+				comm = strings.Join(strings.Fields(s.src(cc.Comm)), " ")
+			}
+			var body []string
+			for _, st := range cc.Body {
+				body = append(body, strings.Join(strings.Fields(s.src(st)), " "))
+			}
+			pairs = append(pairs, [2]string{comm, strings.Join(body, " ; ")})
+		}
+	}
+	e.printf("/-- the select of `circuitBreaker.DoWithAcceptableCtx` (core/breaker/breaker.go): (case, statements) in source order -/\ndef breakerSelect : List (String × String) := [")
+	for i, p := range pairs {
+		if i > 0 {
+			e.printf(", ")
+		}
+		e.printf("(%s, %s)", leanString(p[0]), leanString(p[1]))
+	}
+	e.printf("]\n\n")
+	body := []string{}
+	if fd := s.findFunc("core/stores/redis/breakerhook.go", "breakerHook.ProcessHook"); fd == nil {
+		e.errors = append(e.errors, "breakerHook.ProcessHook not found")
+	} else {
+		ast.Inspect(fd.Body, func(n ast.Node) bool {
+			if fl, ok := n.(*ast.FuncLit); ok && len(body) == 0 {
+				flatStmts(s, fl.Body.List, &body)
+				return false
+			}
+			return true
+		})
+	}
+	e.stringList("breakerProcessHook", "statements of the closure returned by breakerHook.ProcessHook", body)
 }
